@@ -2,6 +2,7 @@ CONSTANTS
   GC = FALSE
   Broken = "none"
   MaxOps = 3
+  Family = "main"
   Reinstantiate = FALSE
 SPECIFICATION Spec
 INVARIANT OneInstance
